@@ -1205,3 +1205,308 @@ func c06MaskFromWire(r *core.Run) {
 	}
 	r.Check(why == "", "R06.17", "CapabilityPackage.ReadFrom: each mask is built from the bytes read", fn.Pos(), "Capabilities[type] = parseValueMask(ch.Bytes(length))", why)
 }
+
+// c15ReadHandsOn: R15.16 (second clause). PacketQueue.Read reports a short read with the error Bytes returned —
+// not with io.EOF or another translation, which the parsers that read through io.Reader would take for success.
+func c15ReadHandsOn(r *core.Run) {
+	p := r.Prog
+	fn := p.Func("tds", "PacketQueue", "Read")
+	bytesFn := p.Func("tds", "PacketQueue", "Bytes")
+	why := ""
+	for _, ret := range core.Returns(fn) {
+		rv := core.RetVals(ret)
+		ev := core.Strip(rv[len(rv)-1])
+		ex, ok := ev.(*ssa.Extract)
+		if ok {
+			if c, isC := ex.Tuple.(*ssa.Call); isC && c.Call.StaticCallee() == bytesFn && ex.Index == 1 {
+				continue
+			}
+		}
+		if core.IsNil(ev) {
+			good := false
+			for _, c := range callsTo(fn, bytesFn) {
+				if errNilGuard(core.GuardsAt(ret), c) {
+					good = true
+				}
+			}
+			if good {
+				continue
+			}
+		}
+		why = "PacketQueue.Read returns " + core.Expr(rv[len(rv)-1]) + " instead of the error of Bytes: a short read is no longer reported as not-enough-bytes to a parser that reads through io.Reader (TokenlessPackage), which then succeeds on half a package"
+	}
+	r.Check(why == "", "R15.16", "PacketQueue.Read returns the error of Bytes", fn.Pos(), "return copy(p, bs), err", why)
+}
+
+// untilKeepsChain: when NextPackage fails inside NextPackageUntil (a context ended, the transport died, the channel
+// was closed) the error NextPackageUntil returns still has that error in its chain: it is the error itself, an
+// fmt.Errorf that wraps it with %w, or an EEDError whose WrappedError is one of those. The caller's errors.Is(err,
+// context.Canceled / DeadlineExceeded / ErrChannelClosed) depends on it.
+func untilKeepsChain(r *core.Run, rule string) {
+	p := r.Prog
+	fn := p.Func("tds", "Channel", "NextPackageUntil")
+	np := p.Func("tds", "Channel", "NextPackage")
+	fWrapped := p.Field("tds", "EEDError", "WrappedError")
+	n := 0
+	why := ""
+	for _, c := range callsTo(fn, np) {
+		e, has := errResult(c)
+		if !has || e == nil {
+			continue
+		}
+		var keeps func(v ssa.Value, at ssa.Instruction, d int) bool
+		keeps = func(v ssa.Value, at ssa.Instruction, d int) bool {
+			if d > 6 || v == nil {
+				return false
+			}
+			v = core.Strip(v)
+			if v == e {
+				return true
+			}
+			if call, ok := v.(*ssa.Call); ok {
+				if ws, isErrorf := errorfWraps(call); isErrorf {
+					for _, w := range ws {
+						if keeps(w, at, d+1) {
+							return true
+						}
+					}
+				}
+				return false
+			}
+			if ph, ok := v.(*ssa.Phi); ok {
+				for _, x := range ph.Edges {
+					if !keeps(x, at, d+1) {
+						return false
+					}
+				}
+				return len(ph.Edges) > 0
+			}
+			// an *EEDError: the last store of its WrappedError before the return
+			if pt, ok := v.Type().(*types.Pointer); ok && core.IsNamedType(pt.Elem(), core.Module+"/tds", "EEDError") {
+				var last *ssa.Store
+				for _, b := range fn.Blocks {
+					for _, in := range b.Instrs {
+						st, isSt := in.(*ssa.Store)
+						if !isSt {
+							continue
+						}
+						fa, isFA := st.Addr.(*ssa.FieldAddr)
+						if !isFA || core.FieldOfAddr(fa) != fWrapped || core.Strip(fa.X) != v {
+							continue
+						}
+						if core.Dominates(st, at) {
+							last = st
+						}
+					}
+				}
+				return last != nil && keeps(last.Val, at, d+1)
+			}
+			return false
+		}
+		for _, ret := range core.Returns(fn) {
+			if !errNonNilGuard(core.GuardsAt(ret), e) {
+				continue
+			}
+			n++
+			rv := core.RetVals(ret)
+			if !keeps(rv[len(rv)-1], ret, 0) {
+				why = "after NextPackage failed, NextPackageUntil returns " + core.Expr(rv[len(rv)-1]) + " (" + p.Pos(ret.Pos()) + "), which does not have that error in its chain (no %w): errors.Is(err, context.Canceled) / DeadlineExceeded / ErrChannelClosed is false for the caller"
+			}
+		}
+	}
+	if n == 0 {
+		why = "no return on the failure edge of NextPackage found"
+	}
+	r.Check(why == "", rule, "NextPackageUntil: a failed receive is returned with its error in the chain", fn.Pos(), fmt.Sprintf("%d return(s) on the failure edge", n), why)
+}
+
+// errNonNilGuard: gs contains the non-nil edge of a nil test of e.
+func errNonNilGuard(gs []core.Guard, e ssa.Value) bool {
+	for _, g := range gs {
+		if x, nn, ok := core.ErrNilTest(g.Cond); ok && x == e && nn == g.Pol {
+			return true
+		}
+	}
+	return false
+}
+
+// setPositionOwner: PacketQueue.SetPosition moves the two indices and nothing else; it is the rollback of a failed
+// receive attempt and is called by Channel.WritePacket only. Used on the transmit queue ("undo a failed encoding")
+// it leaves the packets the encoding opened in the queue, and the flush sends them behind the end-of-message packet.
+func setPositionOwner(r *core.Run, rule string) {
+	p := r.Prog
+	wp := p.Func("tds", "Channel", "WritePacket")
+	pq := p.Named("tds", "PacketQueue")
+	n := 0
+	for _, fn := range p.ModuleFuncs() {
+		if fn.Blocks == nil || p.FuncInOverlay(fn) {
+			continue
+		}
+		outer := fn
+		for outer.Parent() != nil {
+			outer = outer.Parent()
+		}
+		for _, c := range core.Calls(fn) {
+			name := ""
+			if c.Common().IsInvoke() {
+				name = c.Common().Method.Name()
+			} else if f := core.StaticCallee(c); f != nil && core.RecvNamed(f) != nil && core.RecvNamed(f).Obj() == pq.Obj() {
+				name = f.Name()
+			}
+			if name != "SetPosition" {
+				continue
+			}
+			n++
+			if outer == wp || (core.RecvNamed(outer) != nil && core.RecvNamed(outer).Obj() == pq.Obj()) {
+				r.OK(rule, core.FuncName(outer)+": rolls the receive queue back", c.Pos(), "rollback of a failed attempt")
+				continue
+			}
+			r.Bad(rule, core.FuncName(outer)+": SetPosition outside WritePacket", c.Pos(), core.FuncName(outer)+" moves a queue position back with SetPosition: only the indices move, packets opened since stay queued — on the transmit queue they are sent after the packet that now carries end-of-message, and the stream has a packet behind the end of the message")
+		}
+	}
+	r.Check(n >= 1, rule, "SetPosition is the rollback of WritePacket only", token.NoPos, fmt.Sprintf("%d call sites", n), "the rollback call of WritePacket was not found")
+}
+
+// constFormats: every fmt.Sprintf / Errorf / Fprintf call of package dsn has a constant format string. A format
+// assembled from data (the percent-encoded user info of a URI) has its escapes read as verbs: the text is garbled
+// and the arguments that follow are swallowed.
+func constFormats(r *core.Run, rule, pkgRel string) {
+	p := r.Prog
+	n := 0
+	for _, fn := range p.ModuleFuncs() {
+		if fn.Blocks == nil || fn.Pkg == nil || fn.Pkg.Pkg.Path() != core.Module+"/"+pkgRel || p.FuncInOverlay(fn) {
+			continue
+		}
+		for _, c := range core.Calls(fn) {
+			f := core.StaticCallee(c)
+			if f == nil || f.Pkg == nil || f.Pkg.Pkg.Path() != "fmt" {
+				continue
+			}
+			idx := -1
+			switch f.Name() {
+			case "Sprintf", "Errorf", "Printf":
+				idx = 0
+			case "Fprintf":
+				idx = 1
+			}
+			if idx < 0 {
+				continue
+			}
+			n++
+			if _, isC := c.Common().Args[idx].(*ssa.Const); !isC {
+				r.Bad(rule, core.FuncName(fn)+": fmt."+f.Name()+" with a computed format", c.Pos(), "the format string of fmt."+f.Name()+" is "+core.Expr(c.Common().Args[idx])+", not a constant: '%' sequences in the data (percent-encoded user name or password) are read as verbs, the text is garbled and the remaining arguments are lost")
+			}
+		}
+	}
+	r.Check(n > 0, rule, "format strings in package "+pkgRel+" are constants", token.NoPos, fmt.Sprintf("%d formatting calls inspected", n), "no formatting calls found")
+}
+
+// comparerErrorsReturned: every error a comparer call (the Target's VersionCompareFunc, called through a function
+// value) reports in SetCapabilities / contains ends the evaluation: the non-nil edge of its test leads to returns of a
+// non-nil error only, and the edge exists. A combined condition (err == nil && i >= 0) lets a failing comparison fall
+// through to a silent answer.
+func comparerErrorsReturned(r *core.Run, rule string) {
+	p := r.Prog
+	fns := []*ssa.Function{p.Func("capability", "Target", "SetCapabilities"), p.Func("capability", "VersionRange", "contains")}
+	n := 0
+	for _, fn := range fns {
+		for _, c := range core.Calls(fn) {
+			cc := c.Common()
+			if cc.IsInvoke() || cc.StaticCallee() != nil {
+				continue
+			}
+			if _, isBuiltin := cc.Value.(*ssa.Builtin); isBuiltin {
+				continue
+			}
+			sig, ok := cc.Value.Type().Underlying().(*types.Signature)
+			if !ok || sig.Results().Len() != 2 || !core.IsErrorType(sig.Results().At(1).Type()) {
+				continue
+			}
+			e, has := errResult(c)
+			if !has || e == nil {
+				continue
+			}
+			n++
+			key := core.FuncName(fn) + ": error of the comparer call"
+			why := "the error of the comparer call is never tested"
+			for _, ref := range *e.Referrers() {
+				bo, isBo := ref.(*ssa.BinOp)
+				if !isBo {
+					continue
+				}
+				_, nn, isT := core.ErrNilTest(bo)
+				if !isT {
+					continue
+				}
+				for _, r2 := range *bo.Referrers() {
+					iff, isIf := r2.(*ssa.If)
+					if !isIf {
+						continue
+					}
+					s := iff.Block().Succs[1]
+					if nn {
+						s = iff.Block().Succs[0]
+					}
+					why = ""
+					core.EnumPaths(s, func(b *ssa.BasicBlock) bool { return false }, nil, 3000, func(pa core.Path, ended bool) {
+						last := pa.Blocks[len(pa.Blocks)-1]
+						ret, isRet := last.Instrs[len(last.Instrs)-1].(*ssa.Return)
+						if !isRet {
+							why = "after the comparer reported an error the evaluation goes on (" + p.Pos(last.Instrs[len(last.Instrs)-1].Pos()) + ")"
+							return
+						}
+						rv := core.RetVals(ret)
+						if core.IsNil(rv[len(rv)-1]) {
+							why = "after the comparer reported an error a return without error is reachable (" + p.Pos(ret.Pos()) + "): a version or bound the comparer cannot handle gets a silent answer"
+						}
+					})
+				}
+			}
+			r.Check(why == "", rule, key, c.Pos(), "err != nil leads to error returns only", why)
+		}
+	}
+	if n == 0 {
+		r.Bad(rule, "comparer calls", token.NoPos, "no call of the comparer through a function value found in SetCapabilities/contains")
+	}
+}
+
+// noMapRangeInAnswers: ToGo and String of ASEIsolationLevel do not iterate a map: what they answer for a level would
+// depend on the iteration order, which Go randomises per run and per loop.
+func noMapRangeInAnswers(r *core.Run, rule string) {
+	p := r.Prog
+	for _, name := range []string{"ToGo", "String"} {
+		fn := p.Func("", "ASEIsolationLevel", name)
+		why := ""
+		for _, b := range fn.Blocks {
+			for _, in := range b.Instrs {
+				if rg, ok := in.(*ssa.Range); ok {
+					if _, isMap := rg.X.Type().Underlying().(*types.Map); isMap {
+						why = "ASEIsolationLevel." + name + " ranges over a map (" + core.Expr(rg.X) + "): what it collects depends on the iteration order, so the same level can print or translate differently from call to call"
+					}
+				}
+			}
+		}
+		r.Check(why == "", rule, "ASEIsolationLevel."+name+": no map iteration", fn.Pos(), "no range over a map", why)
+	}
+}
+
+// settersStoreAsIs: R16.10 (second clause). SetInt64 / SetBytes store the value they are given: the only math/big
+// method they call on dec.i is the one of the same name. A reduction, truncation or re-scaling inside a setter
+// silently changes values of legal precision.
+func settersStoreAsIs(r *core.Run) {
+	p := r.Prog
+	for _, name := range []string{"SetInt64", "SetBytes"} {
+		fn := p.Func("asetypes", "Decimal", name)
+		why := ""
+		for _, c := range core.Calls(fn) {
+			f := core.StaticCallee(c)
+			if f == nil || f.Pkg == nil || f.Pkg.Pkg.Path() != "math/big" {
+				continue
+			}
+			if f.Name() != name {
+				why = "Decimal." + name + " also calls big.Int." + f.Name() + ": the value stored is not the value given (reduced, truncated or re-scaled), e.g. an 8-byte money amount decoded while the precision is still that of the short form loses its leading digits"
+			}
+		}
+		r.Check(why == "", "R16.10", "Decimal."+name+": stores the value as it is given", fn.Pos(), "only big.Int."+name, why)
+	}
+}
